@@ -91,6 +91,8 @@ func (o op) String() string {
 		s = fmt.Sprintf("region peer on store %d: %v", o.id, o.flag)
 	case "hb":
 		s = fmt.Sprintf("StoreHeartbeat(%d)", o.id)
+	case "restart":
+		s = "raft cluster restarted (reloaded from storage, as after a leader change)"
 	}
 	if o.fail > 0 {
 		s += fmt.Sprintf(" [storage write #%d fails]", o.fail)
@@ -116,6 +118,9 @@ type model struct {
 	peerOn map[uint64]bool
 	everTomb map[uint64]bool
 	weightN float64
+	// restarted: the cluster was reloaded from storage and no region heartbeat arrived since
+	// (derived per-store counters may differ from a long-running cluster: part of the state)
+	restarted bool
 }
 
 func newModel(ids []uint64, faults bool) *model {
@@ -151,6 +156,7 @@ func newModel(ids []uint64, faults bool) *model {
 	add(op{kind: "labels", id: ids[0]})
 	add(op{kind: "check"})
 	add(op{kind: "cleanup"})
+	m.ops = append(m.ops, op{kind: "restart"})
 	return m
 }
 
@@ -185,6 +191,7 @@ func (m *model) Reset() {
 	m.peerOn = map[uint64]bool{}
 	m.everTomb = map[uint64]bool{}
 	m.weightN = 1
+	m.restarted = false
 }
 
 func (m *model) views() map[uint64]view {
@@ -211,7 +218,7 @@ func (m *model) Key() string {
 		x := v[id]
 		fmt.Fprintf(&b, "%d:%v/%v/%s/%d/%.0f/%v;", id, x.state, x.destroyed, x.addr, x.peers, x.lw, strings.Contains(x.meta, "zone"))
 	}
-	fmt.Fprintf(&b, "|%v", m.peerOn)
+	fmt.Fprintf(&b, "|%v|%v", m.peerOn, m.restarted)
 	return b.String()
 }
 
@@ -250,6 +257,7 @@ func (m *model) Apply(i int) *hist.Violation {
 			return nil
 		}
 		m.peerOn[o.id] = o.flag
+		m.restarted = false
 		m.confV++
 		meta := &metapb.Region{Id: 2, RegionEpoch: &metapb.RegionEpoch{Version: 1, ConfVer: m.confV}, Peers: []*metapb.Peer{{Id: 3, StoreId: 1}}}
 		var on []uint64
@@ -268,6 +276,12 @@ func (m *model) Apply(i int) *hist.Violation {
 		}
 		m.fk.failAt = 0
 		return nil
+	case "restart":
+		m.restarted = true
+		rc.Stop()
+		if e := rc.Start(m.s.Server); e != nil {
+			panic("harness: cluster restart failed: " + e.Error())
+		}
 	case "hb":
 		resp, e := m.s.StoreHeartbeat(context.Background(), &pdpb.StoreHeartbeatRequest{Header: m.s.Header(), Stats: &pdpb.StoreStats{StoreId: o.id, Capacity: 100 << 30, Available: 50 << 30}})
 		err = e
